@@ -67,7 +67,7 @@ def walk_steps(ctx, f):
     keep = []
     for term, ss in by_term.items():
         named = [s for s in ss if s.state[0] == 'v' and s.d.name == s.state[1]]
-        keep.extend(named if named else ss)
+        keep.extend(named if named else [min(ss, key=lambda s: s.node.id)])
     keep.sort(key=lambda s: s.node.id)
     return keep
 
